@@ -60,6 +60,9 @@ CHECKS = {
         "runs": [
             {"harnesses": [H + "ZZH2Parse"], "flags": VLQ_REDIRECT, "quick": GEN_Q, "thorough": GEN_T},
             {"harnesses": [H + "ZZH2Parse"], "flags": VLQ_REDIRECT, "quick": GEN_ATOMS_Q, "thorough": GEN_ATOMS_T},
+            # text -> token lemma (layer L): operator/punctuation kinds and extents by maximal munch, identifiers, keywords,
+            # numbers, trivia skipping - the same step harness as C10 (whitespace and comments never change the token sequence)
+            {"harnesses": [LX + "ZZH10Step"], "quick": {"K": 5, "prefix": 0}, "thorough": {"K": 7, "prefix": 0}},
         ],
     },
     "C03": {
